@@ -46,7 +46,7 @@ Theorem C10_legals_masked : forall b M, visible (legals_masked_gen b M) = filter
 Proof. exact legals_masked_visible. Qed.
 Print Assumptions C10_legals_masked.
 
-Theorem C10_cover : forall Ms g, wf g -> g_promo g = 0 -> (length (content g) <= 400)%nat -> covers Ms ->
+Theorem C10_cover : forall Ms g, wf g -> g_promo g = 0 -> covers Ms ->
   Permutation (fst (cover_run g Ms)) (content g) /\ content (snd (cover_run g Ms)) = [].
 Proof. exact cover. Qed.
 Print Assumptions C10_cover.
